@@ -70,6 +70,37 @@ def raw_series(m, sensor, idx):
     return m.elements[idx].time_variables[var]
 
 
+def check_continued(acc, mname, ri, sensor, idx, op, thr, base_vals, base_obs, tag, pre):
+    """The stop condition is given only to a CONTINUATION: first `pre` steps without it, then the rest with it."""
+    spec = model_spec(mname)
+    dt, T = RUNS[ri]
+    n = len(base_vals) - 1
+    case = {'kind': 'thr-cont', 'model': mname, 'run': ri, 'sensor': sensor, 'idx': idx, 'op': op, 'thr': thr, 'tag': tag, 'pre': pre}
+    T1 = [dt[0] * pre, dt[1]]
+    T2 = [si.convert(si.si(T[0], 'TimeInterval', T[1]), 'TimeInterval', 'sec', dt[1]) - T1[0], dt[1]]
+    m, info = sim.run_schedule(spec, [('run', dt, T1, None, None), ('run', dt, T2, None, [sensor, idx, op, thr])])
+    acc.executions += 1
+    if info['error']:
+        acc.violation(f'C16/continued/run-error/{info["error"][0]}', 'run succeeds', case, {'error': info['error']})
+        return
+    hold = [OPS[op](v, thr[0]) for v in base_vals]
+    kstar = next((k for k in range(pre + 1, n + 1) if hold[k]), None)
+    expected = n + 1 if kstar is None else kstar + 1
+    got = len(m.pt.time)
+    acc.transitions += got
+    if got != expected:
+        acc.violation(f'C16/continued/stop-instant/{"late" if got > expected else "early"}/{sensor}/{op}',
+                      'a stop condition given to a continued run ends it at the first computed instant of that run at which it holds', case,
+                      {'got_instants': got, 'expected_instants': expected, 'k_star': kstar, 'continuation_starts_after': pre})
+        return
+    obs = m.observe()
+    if obs['time'] != base_obs['time'][:got] or any(ser != base_obs['el'][i][var][:got] for i, e in enumerate(obs['el']) for var, ser in e.items()):
+        acc.violation(f'C16/continued/prefix-differs/{sensor}/{op}', 'stopped continued run equals the unstopped run on its prefix', case, {})
+        return
+    acc.outcomes['continued-' + ('stopped' if kstar is not None else 'never')] += 1
+    acc.cases += 1
+
+
 def check_threshold(acc, mname, ri, sensor, idx, op, thr, base_vals_in_thr_unit, base_obs, tag):
     """thr = [value, unit]; base_vals_in_thr_unit: unstopped series expressed in thr's unit (plain floats)."""
     spec = model_spec(mname)
@@ -143,6 +174,9 @@ def run_shard(shard, tier):
         for op in OPS:
             check_threshold(acc, mname, ri, sensor, idx, op, thr, vals0, base_obs, tag)
             acc.nstates += 1
+            if tag in ('mid', 'below-min', 'above-max') and op in ('>=', '<'):
+                check_continued(acc, mname, ri, sensor, idx, op, thr, vals0, base_obs, tag, pre=3)
+                acc.nstates += 1
             if first:
                 acc.sample({'model': mname, 'dt_T': RUNS[ri], 'sensor': sensor, 'element': idx, 'operator': op,
                             'threshold': thr, 'placement': tag})
@@ -167,6 +201,16 @@ def run_shard(shard, tier):
 
 def replay(case):
     acc = Acc()
+    if case.get('kind') == 'thr-cont':
+        spec = model_spec(case['model'])
+        dt, T = RUNS[case['run']]
+        base, info = sim.run_schedule(spec, [('run', dt, T, None, None)])
+        kind = sim.SENSOR_KIND[case['sensor']][0]
+        series = raw_series(base, case['sensor'], case['idx'])
+        u = case['thr'][1]
+        vals = [si.convert(q.value, kind, q.unit, u) if q.unit != u else q.value for q in series]
+        check_continued(acc, case['model'], case['run'], case['sensor'], case['idx'], case['op'], case['thr'], vals, base.observe(), case['tag'], case['pre'])
+        return acc.violations
     if case.get('kind') == 'thr':
         spec = model_spec(case['model'])
         dt, T = RUNS[case['run']]
